@@ -455,6 +455,7 @@ def history_features(case, obs=None, upto=None):
     shrunk = [dict() for _ in range(n)]       # ino -> min length since last full sync
     open_paths = [dict() for _ in range(n)]   # slot -> path the handle was opened with
     gone = [set() for _ in range(n)]          # paths at which a file was removed / renamed away / replaced
+    gone_dirs = [set() for _ in range(n)]     # paths at which a directory was removed since the last crash
     for si, st in enumerate(case["steps"]):
         if upto is not None and si > upto:
             break
@@ -468,6 +469,7 @@ def history_features(case, obs=None, upto=None):
             feats.add("crash")
             durs[h].crash(decs[si] if si < len(decs) else [])
             gone[h].clear()
+            gone_dirs[h].clear()
             open_paths[h].clear()
             continue
         if name == "open":
@@ -481,6 +483,8 @@ def history_features(case, obs=None, upto=None):
                 feats.add("OpenOnDir")
             if k is None and st[3] in gone[h] and ("c" in flags or "n" in flags):
                 feats.add("Recreate")
+            if k is None and st[3] in gone_dirs[h] and ("c" in flags or "n" in flags):
+                feats.add("KindSwap")
             if k == "file":
                 ino = fs.lookup(st[3])[1]
                 if "t" in flags and "w" in flags and len(fs.data[ino]) > 0:
@@ -492,6 +496,8 @@ def history_features(case, obs=None, upto=None):
             feats.add("OpenOnDir")
         if name == "spit" and fs.kind(st[2]) is None and st[2] in gone[h]:
             feats.add("Recreate")
+        if name == "spit" and fs.kind(st[2]) is None and st[2] in gone_dirs[h]:
+            feats.add("KindSwap")
         if name == "set_len" and fs.h(st[2]) and fs.h(st[2])["w"]:
             if st[3] < len(fs.data[fs.h(st[2])["ino"]]):
                 feats.add("Shrink")
@@ -518,8 +524,23 @@ def history_features(case, obs=None, upto=None):
                 feats.add("RenameDir")
         if name in ("rmdir", "rmdir_all") and fs.kind(st[2]) == "dir":
             feats.add("RemoveDir")
+            gone_dirs[h].add(st[2])
+            if name == "rmdir_all":
+                for q in UNIVERSE + ["/e", "/g/e", "/e/a", "/g/e/a"]:
+                    if is_prefix(st[2], q) and fs.kind(q) == "dir":
+                        gone_dirs[h].add(q)
+                    if is_prefix(st[2], q) and fs.kind(q) == "file":
+                        gone[h].add(q)
         if name in ("mkdir", "mkdir_all") and fs.kind(st[2]) is None:
             feats.add("Mkdir")
+            if name == "mkdir" and st[2] in gone[h]:
+                feats.add("KindSwap")
+            if name == "mkdir_all":
+                cs = comps(st[2])
+                for k2 in range(1, len(cs) + 1):
+                    q = "/" + "/".join(cs[:k2])
+                    if fs.kind(q) is None and q in gone[h]:
+                        feats.add("KindSwap")
         if name in ("rmdir", "rmdir_all", "unlink", "rename", "open", "spit", "mkdir") and "/" in st[2:4]:
             feats.add("RootOp")
         # a handle whose path no longer names its inode
@@ -1126,7 +1147,8 @@ def durable_check(case, obs):
 
 
 # the known-finding classes (known_findings.txt), most specific first
-KNOWN_CLASSES = ["OpenOptsInvalid", "RootOp", "RenameSelf", "StaleHandle", "RenameDir", "RenameFile", "Recreate"]
+KNOWN_CLASSES = ["OpenOptsInvalid", "RootOp", "RenameSelf", "StaleHandle", "RenameDir", "RenameFile", "Recreate",
+                 "KindSwap"]
 
 
 def known_class(case, obs, step):
